@@ -593,18 +593,39 @@ def run_check(pid, tier, seed, replay):
         rc2, o2 = run_harness(binp, g, pid, outdir, seed, n, shards, cases_in=cases_in, tier=tier,
                               timeout=g.get("timeout_" + tier, 1500))
         if rc2 != 0:
+            crash_re = r"^(panic:|fatal error:|SIGSEGV|goroutine \d+ \[running\])"
             cur = os.path.join(outdir, "current_case.json")
-            if os.path.exists(cur) and re.search(r"^(panic:|fatal error:|SIGSEGV|goroutine \d+ \[running\])", o2, flags=re.M):
+            marks = [cur] if os.path.exists(cur) else sorted(glob.glob(os.path.join(outdir, "current_case_*.json")))
+            if marks and re.search(crash_re, o2, flags=re.M):
                 # the test process died while a case was running: that case is the concrete failing input
-                try:
-                    cin = json.load(open(cur)).get("input")
-                except ValueError:
-                    cin = None
-                m2 = re.search(r"^(panic:.*|fatal error:.*)$", o2, flags=re.M)
-                violations.append(("counterexample", "process-crash",
-                                   {"case": {"input": cin}, "harness": g["test"], "signature": "process-crash",
-                                    "observed": (m2.group(1) if m2 else "crash")[:300], "output_tail": o2[-2500:],
-                                    "meaning": "the code under test crashed the process (panic outside the calling goroutine or fatal runtime error) while this case was running"}, cin is None))
+                cands = []
+                for mk in marks:
+                    try:
+                        cands.append(json.load(open(mk)).get("input"))
+                    except ValueError:
+                        pass
+                cin, o3 = (cands[0] if len(cands) == 1 else None), o2
+                if len(cands) > 1:
+                    # several cases were in flight (concurrent harness): re-run each alone; the one that crashes is it
+                    for k, cand in enumerate(cands):
+                        inp = os.path.join(BUILD, "%s_crash_in.json" % pid)
+                        json.dump([cand], open(inp, "w"))
+                        rc3, o3 = run_harness(binp, g, pid, outdir + "_crash", seed, 1, 1, cases_in=inp, tier=tier,
+                                              timeout=g.get("timeout_" + tier, 1500), extra_env={"VERIF_FILEPREFIX": pid + "_crash"})
+                        shutil.rmtree(outdir + "_crash", ignore_errors=True)
+                        if rc3 != 0 and re.search(crash_re, o3, flags=re.M):
+                            cin = cand
+                            break
+                    else:
+                        o3 = o2
+                m2 = re.search(r"^(panic:.*|fatal error:.*)$", o3, flags=re.M)
+                obj = {"case": {"input": cin}, "harness": g["test"], "signature": "process-crash",
+                       "observed": (m2.group(1) if m2 else "crash")[:300], "output_tail": o3[-2500:],
+                       "meaning": "the code under test crashed the process (panic outside the calling goroutine or fatal runtime error) while this case was running"}
+                if cin is None and cands:
+                    obj["in_flight_cases"] = cands[:8]
+                    obj["note"] = "none of the cases in flight crashed when run alone: the crash needs their interleaving"
+                violations.append(("counterexample", "process-crash", obj, cin is None))
                 harness_crashed = True
                 break
             harness_err = "harness %s failed (rc=%d):\n%s" % (g["test"], rc2, o2[-4000:])
